@@ -417,4 +417,64 @@ theorem writeAll_interrupted (s : List Resp) (acc buf : Bytes) :
   | cons b buf => left; simp [writeAll]
 
 
+/-! ## (d) record framing -/
+section Records
+variable {σ : Type}
+
+theorem Tokenizer.run_append (t : Tokenizer σ) (s : σ) (a b : Bytes) :
+    t.run s (a ++ b) = t.run (t.run s a) b := by
+  simp [Tokenizer.run, List.foldl_append]
+
+variable [DecidableEq σ]
+
+theorem Tokenizer.completed_append (t : Tokenizer σ) (s : σ) (a b : Bytes) :
+    t.completed s (a ++ b) = t.completed s a + t.completed (t.run s a) b := by
+  induction a generalizing s with
+  | nil => simp [Tokenizer.completed, Tokenizer.run]
+  | cons x xs ih =>
+    simp only [List.cons_append, Tokenizer.completed, ih, Tokenizer.run, List.foldl_cons]
+    omega
+
+theorem completed_take_prime (t : Tokenizer σ) (r : Bytes) (hp : Prime t r) (j : Nat)
+    (hj : j < r.length) : t.completed t.idle (r.take j) = 0 := by
+  induction j with
+  | zero => simp [Tokenizer.completed]
+  | succ j ih =>
+    have hj' : j < r.length := by omega
+    rw [List.take_succ_eq_append_getElem hj', Tokenizer.completed_append, ih hj']
+    simp only [Tokenizer.completed, Nat.zero_add, Nat.add_zero]
+    have : t.step (t.run t.idle (r.take j)) r[j] = t.run t.idle (r.take (j + 1)) := by
+      rw [List.take_succ_eq_append_getElem hj', Tokenizer.run_append]; rfl
+    rw [this]
+    have hne := hp.2.2 (j + 1) (by omega) hj
+    simp [hne]
+
+theorem completed_prime (t : Tokenizer σ) (r : Bytes) (hp : Prime t r) :
+    t.completed t.idle r = 1 := by
+  obtain ⟨h2, hrun, hbusy⟩ := hp
+  have hn : r.length - 1 < r.length := by omega
+  have hr : r = r.take (r.length - 1) ++ [r[r.length - 1]] := by
+    rw [← List.take_succ_eq_append_getElem hn]
+    have : r.length - 1 + 1 = r.length := by omega
+    rw [this, List.take_length]
+  have h0 := completed_take_prime t r ⟨h2, hrun, hbusy⟩ (r.length - 1) hn
+  have hne := hbusy (r.length - 1) (by omega) hn
+  have hstep : t.step (t.run t.idle (r.take (r.length - 1))) r[r.length - 1] = t.idle := by
+    have : t.run t.idle r = t.step (t.run t.idle (r.take (r.length - 1))) r[r.length - 1] := by
+      conv => lhs; rw [hr]
+      rw [Tokenizer.run_append]; rfl
+    rw [← this, hrun]
+  rw [hr, Tokenizer.completed_append, h0]
+  simp only [Tokenizer.completed, Nat.zero_add, Nat.add_zero]
+  simp [hne, hstep]
+
+theorem specRecords_zero (ls : List Nat) (h : ∀ l ∈ ls, 0 < l) : specRecords ls 0 = (0, .eos) := by
+  cases ls with
+  | nil => rfl
+  | cons l ls =>
+    have : ¬ l ≤ 0 := by have := h l (List.mem_cons_self ..); omega
+    simp [specRecords, this]
+
+end Records
+
 end ArrowModel.C18
